@@ -155,10 +155,35 @@ static void log_state(W& w, Curve& c) {
     w.kv("n", (int64_t)c.point_array.count);
 }
 
+// one instruction through Curve::commands; returns whether every item was reported as processed
+static bool via_commands(Curve& c, char letter, std::initializer_list<double> nums) {
+    std::vector<CurveInstruction> items(1 + nums.size());
+    items[0].command = letter;
+    size_t i = 1;
+    for (double v : nums) items[i++].number = v;
+    return c.commands(items.data(), items.size()) == items.size();
+}
+
 static void do_curve(const J& g, W& w) {
     double tol = pow(10.0, -(double)g["tol"].i());
     Curve c = {};
     c.init(Vec2{0, 0}, tol);
+    // cmd: every section that has a command letter is issued through Curve::commands
+    bool cmd = g.has("cmd") && g["cmd"].t();
+    bool cmd_ok = true;
+    std::vector<CurveInstruction> all_items;
+    auto note = [&](char letter, std::initializer_list<double> nums) {
+        CurveInstruction ci;
+        ci.command = letter;
+        all_items.push_back(ci);
+        for (double v : nums) {
+            CurveInstruction cn;
+            cn.number = v;
+            all_items.push_back(cn);
+        }
+        cmd_ok = via_commands(c, letter, nums) && cmd_ok;
+    };
+    bool all_cmd = true;
     w.key("steps").begin_arr();
     for (size_t si = 0; si < g["secs"].size(); si++) {
         const J& a = g["secs"][si];
@@ -179,35 +204,42 @@ static void do_curve(const J& g, W& w) {
         auto absp = [&](const J& p) { return rel ? p0 + jp(p) : jp(p); };
         if (k == "segment") {
             if (!spec_ctrl) ctrl = {p0, absp(s["p"])};
-            c.segment(jp(s["p"]), rel);
+            if (cmd) note(rel ? 'l' : 'L', {jp(s["p"]).x, jp(s["p"]).y});
+            else c.segment(jp(s["p"]), rel);
         } else if (k == "horizontal") {
             if (!spec_ctrl) ctrl = {p0, Vec2{rel ? p0.x + s["x"].i() : (double)s["x"].i(), p0.y}};
-            c.horizontal((double)s["x"].i(), rel);
+            if (cmd) note(rel ? 'h' : 'H', {(double)s["x"].i()});
+            else c.horizontal((double)s["x"].i(), rel);
         } else if (k == "vertical") {
             if (!spec_ctrl) ctrl = {p0, Vec2{p0.x, rel ? p0.y + s["y"].i() : (double)s["y"].i()}};
-            c.vertical((double)s["y"].i(), rel);
+            if (cmd) note(rel ? 'v' : 'V', {(double)s["y"].i()});
+            else c.vertical((double)s["y"].i(), rel);
         } else if (k == "cubic") {
             if (!spec_ctrl) ctrl = {p0, absp(s["c1"]), absp(s["c2"]), absp(s["e"])};
             Array<Vec2> pts = {};
             pts.append(jp(s["c1"]));
             pts.append(jp(s["c2"]));
             pts.append(jp(s["e"]));
-            c.cubic(pts, rel);
+            if (cmd) note(rel ? 'c' : 'C', {pts[0].x, pts[0].y, pts[1].x, pts[1].y, pts[2].x, pts[2].y});
+            else c.cubic(pts, rel);
         } else if (k == "cubic_smooth") {
             if (!spec_ctrl) ctrl = {p0, p0 * 2 - lc0, absp(s["c2"]), absp(s["e"])};
             Array<Vec2> pts = {};
             pts.append(jp(s["c2"]));
             pts.append(jp(s["e"]));
-            c.cubic_smooth(pts, rel);
+            if (cmd) note(rel ? 's' : 'S', {pts[0].x, pts[0].y, pts[1].x, pts[1].y});
+            else c.cubic_smooth(pts, rel);
         } else if (k == "quadratic") {
             if (!spec_ctrl) ctrl = {p0, absp(s["c"]), absp(s["e"])};
             Array<Vec2> pts = {};
             pts.append(jp(s["c"]));
             pts.append(jp(s["e"]));
-            c.quadratic(pts, rel);
+            if (cmd) note(rel ? 'q' : 'Q', {pts[0].x, pts[0].y, pts[1].x, pts[1].y});
+            else c.quadratic(pts, rel);
         } else if (k == "quadratic_smooth") {
             if (!spec_ctrl) ctrl = {p0, p0 * 2 - lc0, absp(s["e"])};
-            c.quadratic_smooth(jp(s["e"]), rel);
+            if (cmd) note(rel ? 't' : 'T', {jp(s["e"]).x, jp(s["e"]).y});
+            else c.quadratic_smooth(jp(s["e"]), rel);
         } else if (k == "bezier") {
             if (!spec_ctrl) {
                 ctrl = {p0};
@@ -216,23 +248,27 @@ static void do_curve(const J& g, W& w) {
             Array<Vec2> pts = {};
             for (size_t i = 0; i < s["pts"].size(); i++) pts.append(jp(s["pts"][i]));
             c.bezier(pts, rel);
+            all_cmd = false;
         } else if (k == "arc") {
             double rx = (double)s["rx"].i(), ry = (double)s["ry"].i();
             f = arc_param(rx, ry, deg(s["a0"].i()), deg(s["a1"].i()), deg(s["rot"].i()), p0);
             scale = fmax(rx, ry);
-            c.arc(rx, ry, deg(s["a0"].i()), deg(s["a1"].i()), deg(s["rot"].i()));
+            if (cmd) note('E', {rx, ry, deg(s["a0"].i()), deg(s["a1"].i()), deg(s["rot"].i())});
+            else c.arc(rx, ry, deg(s["a0"].i()), deg(s["a1"].i()), deg(s["rot"].i()));
         } else if (k == "turn") {
             double r = (double)s["r"].i(), ang = deg(s["a"].i());
             Vec2 dir = p0 - lc0;
             double a0 = atan2(dir.y, dir.x) + (ang < 0 ? 0.5 * M_PI : -0.5 * M_PI);
             f = arc_param(r, r, a0, a0 + ang, 0, p0);
             scale = r;
-            c.turn(r, ang);
+            if (cmd) note('a', {r, ang});
+            else c.turn(r, ang);
         } else if (k == "parametric") {
             Vec2 ref = rel ? p0 : Vec2{0, 0};
             f = [=](double u) { return wave(u, NULL) + ref; };
             scale = 4;
             c.parametric(wave, NULL, rel);
+            all_cmd = false;
         } else if (k == "interpolation") {
             size_t np = s["pts"].size();
             Array<Vec2> pts = {};
@@ -241,6 +277,7 @@ static void do_curve(const J& g, W& w) {
             std::vector<char> cons(np + 1, 0);
             std::vector<Vec2> tens(np + 1, Vec2{1, 1});
             c.interpolation(pts, angles.data(), (bool*)cons.data(), tens.data(), 1, 1, false, rel);
+            all_cmd = false;
         }
         std::vector<Vec2> V(c.point_array.items + n0, c.point_array.items + c.point_array.count);
         w.begin_obj().ks("k", k).kb("spec_ctrl", spec_ctrl).kv("added", (int64_t)V.size());
@@ -281,6 +318,20 @@ static void do_curve(const J& g, W& w) {
         w.end_obj();
     }
     w.end_arr();
+    if (cmd) {
+        // the whole history as ONE command array on a fresh curve gives the same vertices
+        bool same = true;
+        if (all_cmd) {
+            Curve c2 = {};
+            c2.init(Vec2{0, 0}, tol);
+            uint64_t done = c2.commands(all_items.data(), all_items.size());
+            same = done == all_items.size() && c2.point_array.count == c.point_array.count;
+            for (uint64_t i = 0; same && i < c.point_array.count; i++)
+                same = c2.point_array[i].x == c.point_array[i].x && c2.point_array[i].y == c.point_array[i].y;
+            c2.clear();
+        }
+        w.kb("cmd_ok", cmd_ok).kb("cmd_same", same);
+    }
 }
 
 // ---------------------------------------------------------------- shape primitives
